@@ -59,6 +59,11 @@ where
     T: SampleUniform,
     R: SampleRange<T>,
 {
+    // an empty range panics inside the real rand crate, exactly as it would without the shim (the panic
+    // is then attributed to the caller in /repo, not to the simulator)
+    if range.is_empty() {
+        return ::rand::random_range(range);
+    }
     RNG.with(|r| {
         let mut g = r.borrow_mut();
         match g.as_mut() {
